@@ -8,6 +8,7 @@ import (
 	"io"
 	"net/http"
 	"net/http/httptest"
+	"net/url"
 	"sort"
 	"strconv"
 	"strings"
@@ -1137,8 +1138,320 @@ func unconvertibleDetailProbe(c *Ctx) {
 	}
 }
 
+// sharedKeyProbes (C11/C02, oracle only): a handler sets a response trailer and returns an error
+// whose metadata uses the SAME name: both values arrive, through real HTTP, in every protocol,
+// with and without messages sent first.
+func sharedKeyProbes(c *Ctx) {
+	for _, proto := range []string{"connect", "grpc", "grpcweb"} {
+		for _, kind := range []string{"server", "bidi"} {
+			for _, nsend := range []int{0, 2} {
+				desc := fmt.Sprintf("%s %s stream, %d messages, then an error whose metadata has X-Tag while the response trailers have X-Tag too", proto, kind, nsend)
+				c.Count("probe-shared-key")
+				got := safely(func() string {
+					finish := func(tr http.Header, send func(*[]byte) error) error {
+						tr.Add("X-Tag", "from-trailer")
+						tr.Add("X-Only-Trailer", "t")
+						for i := 0; i < nsend; i++ {
+							_ = send(&[]byte{1})
+						}
+						e := connect.NewError(connect.CodeAborted, errors.New("stop"))
+						e.Meta().Add("X-Tag", "from-error")
+						e.Meta().Add("X-Only-Error", "e")
+						return e
+					}
+					var h *connect.Handler
+					if kind == "server" {
+						h = connect.NewServerStreamHandler("/s/m", func(ctx context.Context, r *connect.Request[[]byte], s *connect.ServerStream[[]byte]) error {
+							return finish(s.ResponseTrailer(), s.Send)
+						}, connect.WithCodec(rawCodec{"raw"}))
+					} else {
+						h = connect.NewBidiStreamHandler("/s/m", func(ctx context.Context, s *connect.BidiStream[[]byte, []byte]) error {
+							return finish(s.ResponseTrailer(), s.Send)
+						}, connect.WithCodec(rawCodec{"raw"}))
+					}
+					srv := httptest.NewUnstartedServer(h)
+					srv.EnableHTTP2 = true
+					srv.StartTLS()
+					defer srv.Close()
+					opts := []connect.ClientOption{connect.WithCodec(rawCodec{"raw"})}
+					if proto == "grpc" {
+						opts = append(opts, connect.WithGRPC())
+					} else if proto == "grpcweb" {
+						opts = append(opts, connect.WithGRPCWeb())
+					}
+					cl := connect.NewClient[[]byte, []byte](srv.Client(), srv.URL+"/s/m", opts...)
+					var err error
+					if kind == "server" {
+						st, cerr := cl.CallServerStream(context.Background(), connect.NewRequest(&[]byte{1}))
+						if cerr != nil {
+							return "call: " + cerr.Error()
+						}
+						for st.Receive() {
+						}
+						err = st.Err()
+						defer st.Close()
+					} else {
+						st := cl.CallBidiStream(context.Background())
+						_ = st.Send(&[]byte{1})
+						_ = st.CloseRequest()
+						for err == nil {
+							_, err = st.Receive()
+						}
+						defer st.CloseResponse()
+					}
+					var ce *connect.Error
+					if !errors.As(err, &ce) || ce.Code() != connect.CodeAborted {
+						return fmt.Sprintf("not the handler's error: %v", err)
+					}
+					for k, w := range map[string]string{"X-Tag": "from-error,from-trailer", "X-Only-Trailer": "t", "X-Only-Error": "e"} {
+						g := append([]string(nil), ce.Meta().Values(k)...)
+						sort.Strings(g)
+						if strings.Join(g, ",") != w {
+							return fmt.Sprintf("%s arrived as %v, want %s (any order)", k, ce.Meta().Values(k), w)
+						}
+					}
+					return "ok"
+				})
+				if got != "ok" {
+					c.Fail("rt-error-meta-shared-key", desc, got, "a value the handler attached to its error (or set as a trailer) did not reach the client")
+				}
+			}
+		}
+	}
+}
+
+// requestWireProbes (C05, request direction, oracle only): what a client writes is decodable by
+// an independent reader that goes by the labels alone: a body or envelope is compressed exactly
+// if it is labelled so, a label names an algorithm only if something is compressed with it
+// (unary Connect: the body; streams: announced for the envelopes that carry the flag), and what
+// is decoded is the message the application sent - for message sizes on both sides of
+// compress-min-bytes, first and later messages.
+func requestWireProbes(c *Ctx) {
+	for _, proto := range []string{"connect", "grpc", "grpcweb"} {
+		for _, kind := range []string{"unary", "client"} {
+			for _, min := range []int{0, 256} {
+				for _, sizes := range [][]int{{10}, {300}, {10, 300, 10}} {
+					if kind == "unary" && len(sizes) > 1 {
+						continue
+					}
+					desc := fmt.Sprintf("%s %s request, send compression rle, compress-min-bytes %d, message sizes %v", proto, kind, min, sizes)
+					c.Count("probe-request-wire")
+					got := safely(func() string {
+						cap := &bodyCapture{}
+						opts := []connect.ClientOption{connect.WithCodec(rawCodec{"raw"}), connect.WithCompressMinBytes(min),
+							connect.WithAcceptCompression("rle", newRLEDecompressor, newRLECompressor), connect.WithSendCompression("rle")}
+						if proto == "grpc" {
+							opts = append(opts, connect.WithGRPC())
+						} else if proto == "grpcweb" {
+							opts = append(opts, connect.WithGRPCWeb())
+						}
+						cl := connect.NewClient[[]byte, []byte](cap, "http://h/s/m", opts...)
+						var msgs [][]byte
+						for i, n := range sizes {
+							msgs = append(msgs, bytes.Repeat([]byte{byte(65 + i)}, n))
+						}
+						if kind == "unary" {
+							_, _ = cl.CallUnary(context.Background(), connect.NewRequest(&msgs[0]))
+						} else {
+							st := cl.CallClientStream(context.Background())
+							for i := range msgs {
+								_ = st.Send(&msgs[i])
+							}
+							_, _ = st.CloseAndReceive()
+						}
+						cap.mu.Lock()
+						defer cap.mu.Unlock()
+						if cap.header == nil {
+							return "no request was made"
+						}
+						encH, _ := encHeaderFor(proto, kind)
+						label := cap.header.Get(encH)
+						named := label != "" && label != "identity"
+						if named && label != "rle" {
+							return "request names an encoding the client was not told to use: " + label
+						}
+						if proto == "connect" && kind == "unary" {
+							body := cap.body
+							if named {
+								out, ok := rleExpand(body, 1<<20)
+								if !ok {
+									return fmt.Sprintf("%s: %s but the body is not rle data", encH, label)
+								}
+								body = out
+							}
+							if !bytes.Equal(body, msgs[0]) {
+								return fmt.Sprintf("the body decodes (by its label %q) to %d bytes, not to the %d-byte message", label, len(body), len(msgs[0]))
+							}
+							return "ok"
+						}
+						rest, i := cap.body, 0
+						for len(rest) >= 5 {
+							n := int(rest[1])<<24 | int(rest[2])<<16 | int(rest[3])<<8 | int(rest[4])
+							if len(rest) < 5+n {
+								return "truncated envelope"
+							}
+							payload := rest[5 : 5+n]
+							if rest[0]&1 != 0 {
+								if !named {
+									return fmt.Sprintf("envelope %d is flagged compressed but %s names no algorithm", i, encH)
+								}
+								out, ok := rleExpand(payload, 1<<20)
+								if !ok {
+									return fmt.Sprintf("envelope %d is flagged compressed but is not rle data", i)
+								}
+								payload = out
+							}
+							if i >= len(msgs) || !bytes.Equal(payload, msgs[i]) {
+								return fmt.Sprintf("envelope %d does not decode to message %d", i, i)
+							}
+							rest, i = rest[5+n:], i+1
+						}
+						if i != len(msgs) || len(rest) != 0 {
+							return fmt.Sprintf("%d of %d messages on the wire, %d stray bytes", i, len(msgs), len(rest))
+						}
+						return "ok"
+					})
+					if got != "ok" {
+						c.Fail("wire-request-undecodable", desc, got, "an independent reader going by the request's labels does not recover the messages the application sent")
+					}
+				}
+			}
+		}
+	}
+}
+
+// truncatedErrorBodyProbes (C06, oracle only): a non-200 response whose body stops before its
+// framing does (Content-Length longer than the body, a chunked body without its last chunk)
+// carries no valid protocol-level error: the code comes from the HTTP status, in every
+// protocol and RPC kind, whatever error the body read ends with.
+func truncatedErrorBodyProbes(c *Ctx) {
+	for _, proto := range []string{"connect", "grpc", "grpcweb"} {
+		for _, kind := range []string{"unary", "server"} {
+			for _, status := range []int{401, 403, 404, 429, 503} {
+				for _, tail := range []error{io.ErrUnexpectedEOF, errTransport} {
+					for _, body := range []string{"", `{"code":"not_fo`, "<html>upstream"} {
+						desc := fmt.Sprintf("%s %s call answered %d with Content-Type application/json, body %q then %v", proto, kind, status, body, tail)
+						c.Count("probe-truncated-error-body")
+						got := safely(func() string {
+							bc := &bodyClient{status: status, header: http.Header{"Content-Type": {"application/json"}}, body: &failingBody{data: []byte(body), err: tail}}
+							v := callClient(proto, kind, bc, nil, [][]byte{{1}})
+							if v.err == nil {
+								return "success"
+							}
+							w, _, ok := errView(v.err)
+							if !ok {
+								return "uncoded: " + v.err.Error()
+							}
+							return strconv.Itoa(w.code)
+						})
+						if want := strconv.Itoa(httpStatusCode(proto, status)); got != want {
+							c.Fail("client-http-status-code", desc, got, "a non-200 response without a valid protocol-level error takes its code from the HTTP status: want "+want)
+						}
+					}
+				}
+			}
+		}
+	}
+}
+
+// terminatorLostProbes (C04, oracle only):
+//
+//	(a) the peer goes away without answering and the transport says so with an error that is, or
+//	    wraps, io.EOF (net/http: `Post "...": EOF`): no API reports the clean end of a stream -
+//	    nothing it returns satisfies errors.Is(err, io.EOF), Err() is not nil;
+//	(b) a stream that was cut (one message, no terminator) stays failed: Err() after Close()
+//	    is what it was before.
+func terminatorLostProbes(c *Ctx) {
+	for _, proto := range []string{"connect", "grpc", "grpcweb"} {
+		opts := func() []connect.ClientOption {
+			o := []connect.ClientOption{connect.WithCodec(rawCodec{"raw"})}
+			if proto == "grpc" {
+				o = append(o, connect.WithGRPC())
+			} else if proto == "grpcweb" {
+				o = append(o, connect.WithGRPCWeb())
+			}
+			return o
+		}
+		for _, te := range []error{io.EOF, &url.Error{Op: "Post", URL: "http://h/s/m", Err: io.EOF}, io.ErrUnexpectedEOF, fmt.Errorf("read: %w", io.EOF)} {
+			for _, kind := range []string{"server", "client", "bidi"} {
+				desc := fmt.Sprintf("%s %s call, the transport's Do fails with %q (%T)", proto, kind, te.Error(), te)
+				c.Count("probe-transport-eof")
+				got := safely(func() string {
+					cl := connect.NewClient[[]byte, []byte](noReadFailingDo{te}, "http://h/s/m", opts()...)
+					var err error
+					switch kind {
+					case "server":
+						st, cerr := cl.CallServerStream(context.Background(), connect.NewRequest(&[]byte{1}))
+						if cerr != nil {
+							err = cerr
+							break
+						}
+						for st.Receive() {
+						}
+						err = st.Err()
+						_ = st.Close()
+						if err == nil {
+							return "Err() is nil: the stream is reported to have ended cleanly"
+						}
+					case "client":
+						st := cl.CallClientStream(context.Background())
+						_ = st.Send(&[]byte{1})
+						_, err = st.CloseAndReceive()
+					default:
+						st := cl.CallBidiStream(context.Background())
+						_ = st.Send(&[]byte{1})
+						_ = st.CloseRequest()
+						_, err = st.Receive()
+						_ = st.CloseResponse()
+					}
+					if err == nil {
+						return "success"
+					}
+					if errors.Is(err, io.EOF) {
+						return "the error wraps io.EOF, the documented sign of a clean end: " + err.Error()
+					}
+					return "ok"
+				})
+				if got != "ok" {
+					c.Fail("term-transport-eof-clean", desc, got, "no terminator (not even a response) arrived, yet the call reports the clean end of the stream")
+				}
+			}
+		}
+		// (b)
+		desc := proto + " server stream cut after one message (no terminator): Receive until false, Err(), Close(), Err()"
+		c.Count("probe-err-after-close")
+		got := safely(func() string {
+			sc := &shapedClient{status: 200, header: http.Header{"Content-Type": {ctFor(proto, "server", "raw")}}, body: frame(0, []byte{1, 2}), shape: transportShape{}}
+			cl := connect.NewClient[[]byte, []byte](sc, "http://h/s/m", opts()...)
+			st, err := cl.CallServerStream(context.Background(), connect.NewRequest(&[]byte{1}))
+			if err != nil {
+				return "ok" // failed even earlier
+			}
+			for st.Receive() {
+			}
+			before := st.Err()
+			_ = st.Close()
+			after := st.Err()
+			if before == nil {
+				return "Err() is nil although no terminator arrived"
+			}
+			if after == nil || connect.CodeOf(after) != connect.CodeOf(before) {
+				return fmt.Sprintf("Err() was %q before Close() and is %v after", before.Error(), after)
+			}
+			return "ok"
+		})
+		if got != "ok" {
+			c.Fail("term-missing-success", desc, got, "a stream without terminator is reported failed, and stays so")
+		}
+	}
+}
+
 func extraProbes(c *Ctx) {
 	metadataProbes(c)
+	terminatorLostProbes(c)
+	truncatedErrorBodyProbes(c)
+	requestWireProbes(c)
+	sharedKeyProbes(c)
 	unconvertibleDetailProbe(c)
 	cancelAtEndProbe(c)
 	// (1) every error a client API returns can be inspected as a Connect error — including the one
@@ -1451,6 +1764,23 @@ func mutatedResponses(c *Ctx) {
 						cdecOp(c, cdecLine(proto, kind, &sresp{status: 200, header: hdr{"Content-Type": {ct}}, trailer: tr}))
 					} else {
 						cdecOp(c, cdecLine(proto, kind, &sresp{status: 200, header: hdr{"Content-Type": {ct}}, body: []bodyItem{{kind: "f", data: []byte{2}}, {kind: "web", header: tr}}}))
+					}
+				}
+				// a message over the client's read limit followed by a long tail of small ones and
+				// the server's verdict: what the client reports does not depend on how many reads
+				// the tail takes (cdecOp delivers the response in 1- and 3-byte reads as well)
+				if kind == "server" || kind == "bidi" {
+					for _, st := range []string{"0", "8"} {
+						items := []bodyItem{{kind: "f", data: bytes.Repeat([]byte{7}, 20)}}
+						for i := 0; i < 300; i++ {
+							items = append(items, bodyItem{kind: "f", data: []byte{byte(i), 1, 2, 3, 4}})
+						}
+						tr := hdr{"Grpc-Status": {st}, "Grpc-Message": {"over%20quota"}, "X-After": {"tail"}}
+						if proto == "grpc" {
+							cdecOp(c, cdecLineMax(proto, kind, 8, &sresp{status: 200, header: hdr{"Content-Type": {ct}}, body: items, trailer: tr}))
+						} else {
+							cdecOp(c, cdecLineMax(proto, kind, 8, &sresp{status: 200, header: hdr{"Content-Type": {ct}}, body: append(items, bodyItem{kind: "web", header: tr})}))
+						}
 					}
 				}
 				// missing terminator
